@@ -535,8 +535,8 @@ GENERATORS = {
     "sqrt": lambda r, n: gen_sqrt(r, n, "sqrt"),
     "sqrt_bd": lambda r, n: gen_sqrt(r, n, "sqrt_bd"),
 }
-COUNTS = {"quick": {"sqrt": 1500, "sqrt_bd": 1500, "sigfig": 3000, "cmp_int": 1000, "cmp_bd": 1000, "cmp_dec": 1000,
-                    "bsearch": 1500, "bsearch_bd": 800, "exp2": 2000, "log2": 300, "ln": 120, "ticklog": 120, "customlog": 80,
+COUNTS = {"quick": {"sqrt": 1500, "sqrt_bd": 1500, "sigfig": 2500, "cmp_int": 1000, "cmp_bd": 1000, "cmp_dec": 1000,
+                    "bsearch": 1500, "bsearch_bd": 800, "exp2": 1500, "log2": 220, "ln": 70, "ticklog": 70, "customlog": 50,
                     "pow": 300, "powapprox": 200, "bd_power": 200},
           "thorough": {"sqrt": 40000, "sqrt_bd": 40000, "sigfig": 60000, "cmp_int": 30000, "cmp_bd": 30000, "cmp_dec": 30000,
                        "bsearch": 30000, "bsearch_bd": 16000, "exp2": 100000, "log2": 6000, "ln": 2500, "ticklog": 2500,
